@@ -45,7 +45,8 @@ RULE = ("A: random filter trees (depth <= 4, leaves: name/type patterns, field e
         "generated LLUDP (template-directed, hand-typed, sub-field bearing; fresh, frozen, lazily parsed), EQ and HTTP entries, "
         "both evaluation modes. B: random histories of {log, set filter, pause, resume, clear} over windows of 1..6 entries. "
         "C: export/import and freeze/thaw of every pooled entry. distinct_nontrivial = distinct (filter shape, entry kind, "
-        "verdict) triples + distinct view states")
+        "verdict) triples + distinct view states"
+        ". Round-5 addition: ordering of vector fields is decided by the reference itself, axis by axis, and literals include vectors that tie on some axes and differ on others")
 ASSUMPTIONS = [
     "a chain that mixes && and || without parentheses is not generated: the text does not say which combination is meant",
     "whether an operator 'can be applied' to a field is decided by Python's own operator on the logged value; when that "
